@@ -36,6 +36,29 @@ def run(ck):
                          "meaning": "sched2 k A B: thread A parked before its k-th mutex acquisition while thread B submits; schedrx k A bytes: while the receiver thread processes the uplink bytes; the calls did not return within 12 s",
                          "reason": "calls blocked forever under this schedule (deadlock)"})
     ck.oblige("forced-schedule deadlock probe: %d schedules return" % len(probes), hung == 0, "%d hung" % hung)
+    # the same with rwlocks in the gate: a high-level command that walks the board table is parked before its k-th lock
+    # acquisition (mutex or rwlock) while the receiver thread handles a node-new notice (board-table writer)
+    import os
+    exe_rw = vlib.build_harness(wrap=("pthread_mutex_lock", "pthread_rwlock_rdlock", "pthread_rwlock_wrlock"))
+    cfg10 = os.path.join(vlib.VERIF, "corpus", "C10", "cfg")
+    nn = hexs(flowgen.frame(flowgen.upmsg([], 3, 0x8D, [1, 0, 0xDA, 0, 0x0D, 0x68, 0, 0x01, 0xEE])))
+    probes2 = [["schedhlrx %d %s %s" % (k, job, nn)] for k in range(1, 9) for job in ("tstall 3", "tper t1 head 1 master", "speed t1 20 master")]
+    def one2(body):
+        script = "\n".join(["start 0 %s 0" % cfg10, "logw 0", "nodenew 0 0 0 0 da000d680001ee", "case p"] + body + ["flush", "mark done"]) + "\n"
+        rc, out, err = vlib.run_driver(exe_rw, script, timeout=15)
+        return body, rc, out
+    with ThreadPoolExecutor(8) as ex:
+        res2 = list(ex.map(one2, probes2))
+    hung2 = 0
+    for body, rc, out in res2:
+        if rc == -999 or "mark done" not in out:
+            hung2 += 1
+            if hung2 <= 2:
+                ck.violation("deadlock.forced-schedule-rw", {"property": "C11", "script": ["start 0 $VERIF/corpus/C10/cfg 0", "logw 0", "nodenew 0 0 0 0 da000d680001ee"] + body + ["flush", "mark done"],
+                             "driver_rc": rc, "observed": out[-400:],
+                             "meaning": "schedhlrx k A bytes: high-level command A parked before its k-th lock acquisition (mutexes and rwlocks) while the receiver thread processes the uplink bytes (a node-new notice: writer of the board table); the calls did not return within 15 s",
+                             "reason": "calls blocked forever under this schedule (deadlock)"})
+    ck.oblige("forced-schedule deadlock probe with rwlocks in the gate: %d schedules return" % len(probes2), hung2 == 0, "%d hung" % hung2)
     # lock-leak battery on the real code: public high-level calls with argument classes {valid, unknown id,
     # unknown second id, out-of-range value, disconnected board} and uplink messages; after each, no library
     # lock may still be held (trylock probe while nothing is in flight)
